@@ -45,6 +45,17 @@ func checkDedupSpecific(c *Ctx, r *Report, pkg, tRC, tLim, tTask, tTrap string) 
 
 	// Start: reserve / release pairing
 	r3 := r.Rule("R3", "E-PAIR(paths)", "RequestCache.Start: after reserve succeeded, every path either starts the worker goroutine or calls release before returning; the worker function ends in release or error on every path", 2)
+	// roles, found by what the methods do rather than by their names: a "clearer"
+	// is a method of the cache that deletes the key from the pending set on every
+	// path (release: nothing else; error: also records the cached error)
+	clearers := pendingClearers(c, pkg, tRC)
+	var clearerNames []string
+	for _, f := range clearers {
+		clearerNames = append(clearerNames, funcName(f))
+	}
+	if len(clearerNames) == 0 {
+		clearerNames = []string{"(*" + tRC + ").release", "(*" + tRC + ").error"}
+	}
 	if st := r.MustFunc(r3, "(*"+tRC+").Start"); st != nil {
 		rs := callsInNamed(st, "(*"+tRC+").reserve")
 		n, bad := 0, 0
@@ -60,7 +71,7 @@ func checkDedupSpecific(c *Ctx, r *Report, pkg, tRC, tLim, tTask, tTrap string) 
 						started = true
 					}
 				})
-				for _, cs := range callsInNamed(st, "(*"+tRC+").release") {
+				for _, cs := range callsInNamed(st, clearerNames...) {
 					if p.hasInstr(cs.Instr) {
 						released = true
 					}
@@ -78,7 +89,7 @@ func checkDedupSpecific(c *Ctx, r *Report, pkg, tRC, tLim, tTask, tTrap string) 
 		// release (an ownerless delete of the pending mark) only by a caller that owns the reservation
 		if len(rs) == 1 {
 			forEachPath(st, 5000, func(p Path) {
-				for _, cs := range callsInNamed(st, "(*"+tRC+").release") {
+				for _, cs := range callsInNamed(st, clearerNames...) {
 					if p.hasInstr(cs.Instr) && !(p.succeeded(rs[0].Instr) && precedes(rs[0].Instr, cs.Instr)) {
 						bad++
 					}
@@ -92,7 +103,10 @@ func checkDedupSpecific(c *Ctx, r *Report, pkg, tRC, tLim, tTask, tTrap string) 
 		}
 		r.Check(len(rs) == 1 && n > 0 && bad == 0, r3, st, "reserve ⇒ worker XOR release", nil, fmt.Sprintf("%d paths", n), fmt.Sprintf("%d of %d paths after a successful reservation neither hand the request to a worker nor release the reservation (or do both): the key stays pending forever, or runs while reported failed", bad, n))
 	}
-	if run := r.MustFunc(r3, "(*"+tRC+").run"); run != nil {
+	// the worker: the function started by `go` in Start, or — if that function
+	// itself clears nothing — the function of the package it calls that does
+	if run := requestWorker(c, tRC, clearerNames); run != nil {
+		r.Analysed(run)
 		n, bad := 0, 0
 		forEachPath(run, 5000, func(p Path) {
 			if p.ret() == nil {
@@ -100,7 +114,10 @@ func checkDedupSpecific(c *Ctx, r *Report, pkg, tRC, tLim, tTask, tTrap string) 
 			}
 			n++
 			cnt := 0
-			for _, cs := range callsInNamed(run, "(*"+tRC+").release", "(*"+tRC+").error") {
+			for _, cs := range callsInNamed(run, clearerNames...) {
+				if _, isDefer := cs.Instr.(*ssa.Defer); isDefer {
+					continue
+				}
 				if p.hasInstr(cs.Instr) {
 					cnt++
 				}
@@ -110,6 +127,8 @@ func checkDedupSpecific(c *Ctx, r *Report, pkg, tRC, tLim, tTask, tTrap string) 
 			}
 		})
 		r.Check(n > 0 && bad == 0, r3, run, "run ends in release or error", nil, fmt.Sprintf("%d paths", n), "the worker can finish without clearing the pending mark of its key")
+	} else {
+		r.Unresolved(r3, "worker function started by RequestCache.Start")
 	}
 	// reserve: pending set only where not pending and no unexpired error
 	r4 := r.Rule("R4", "E-GUARD", "reserve marks the key pending only where it is not already pending and has no unexpired cached error; error() and release() clear the pending mark", 3)
@@ -151,17 +170,24 @@ func checkDedupSpecific(c *Ctx, r *Report, pkg, tRC, tLim, tTask, tTrap string) 
 		})
 		r.Check(ok, r4, rv, "pending[id]=true", nil, "not pending ∧ cached error consulted", "a key is marked pending although it is already pending or its cached error was not consulted: the request runs twice / ignores the cached error")
 	}
-	for _, m := range []string{"release", "error"} {
-		if fn := r.MustFunc(r4, "(*"+tRC+")."+m); fn != nil {
-			ok := false
-			instrsOf(fn, func(in ssa.Instruction) {
-				if isMapDeleteOn(in, tRC+".pending") {
-					ok = true
-				}
-			})
-			r.Check(ok, r4, fn, "clears pending", nil, "delete(pending,id)", m+" does not clear the pending mark")
+	// there is a clearer that only clears and one that also records the cached error
+	plain, recording := 0, 0
+	for _, f := range clearers {
+		r.Analysed(f)
+		rec := false
+		instrsOf(f, func(in ssa.Instruction) {
+			if mu, isMU := in.(*ssa.MapUpdate); isMU && isPureLoadOf(mu.Map, tRC+".errors") {
+				rec = true
+			}
+		})
+		if rec {
+			recording++
+		} else {
+			plain++
 		}
 	}
+	r.Check(plain >= 1, r4, nil, "clears pending", nil, "a method deletes the pending mark and nothing else", "no method of the cache clears the pending mark of a finished request")
+	r.Check(recording >= 1, r4, nil, "clears pending and records the error", nil, "a method deletes the pending mark and stores the cached error", "no method of the cache both clears the pending mark and records the error of a failed request")
 
 	// limiter GC and tombstone
 	r5 := r.Rule("R5", "E-GUARD", "the limiter's GC removes a task only where (expired ∧ ¬running) was computed under the task lock and the task was marked deleted under that lock; getOutput tests the deleted mark after locking the task and before deciding to run; running=true is set only where the task is expired and not running", 2)
